@@ -31,7 +31,7 @@ LEVEL_TEXT = (
     'resulting grid; the whole density array is compared with an exact-rational floor(x*n) histogram; '
     'voxel size clause and index round trip enumerated completely up to grid size 2048 per axis.'
 )
-LEVEL_NOTE = 'Trusted: fractions.Fraction arithmetic. Tie zone |x*n - round(x*n)| <= 2^-40: such samples must be counted exactly once in one of the two adjacent voxels.'
+LEVEL_NOTE = 'Trusted: fractions.Fraction arithmetic. Tie zone 0 < |x*n - round(x*n)| <= 2^-40: such samples must be counted exactly once in one of the two adjacent voxels; coordinates that are exactly on a voxel face (x*n an integer in exact arithmetic) are judged sharply.'
 TECHNIQUE = 'bounded-exhaustive boundary-value enumeration against an exact-rational reference'
 ASSUMPTIONS = ['resolution does not exceed the cell lengths']
 
@@ -73,6 +73,8 @@ def expected_index(x, n):
     v = Fraction(float(x)) * n
     fl = v.numerator // v.denominator
     r = v - fl
+    if r == 0:
+        return int(fl), False, None  # x*n is exactly an integer: floor is unambiguous, judged sharply
     if r <= Fraction(TIE):
         return int(fl), True, int(fl) - 1
     if 1 - r <= Fraction(TIE):
@@ -155,6 +157,8 @@ def axis_probe_coords(M, res, axis):
     # also probe the neighbouring nominal sizes (float floor-division may pick n-1)
     if n > 1:
         vals += [k / (n - 1) for k in range(1, n - 1)]
+    # dyadic coordinates: exactly representable, and exactly ON a voxel face whenever the grid size is even
+    vals += [0.5, 0.25, 0.75, 0.125, 0.375, 0.625, 0.875]
     vals = [v for v in vals if 0 <= v < 1]
     K = len(vals)
     N = 3
